@@ -1899,7 +1899,7 @@ def correspondence(ctx):
     rng = ctx.rng
     # ---- TopocentricFrame.visibility
     vcases = [(ts, "witness", specs, sta, len(specs), "true", False, "dates", "fresh", own) for ts, specs, sta, own, _ in _WITNESS_VIS]
-    vcases += [gen_vis_case(rng) for _ in range(ctx.n(800, 40000))]
+    vcases += [gen_vis_case(rng) for _ in range(ctx.n(800, 32000))]
     vlines = [vis_line(c[0], c[2], c[3], c[5], c[6], c[9]) for c in vcases]
     vmodel = core.Driver("C10").run(vlines)
     for w, m in zip(_WITNESS_VIS, vmodel):
@@ -1923,7 +1923,7 @@ def correspondence(ctx):
                       "history": history, "own": own, "line": line}, observed=real, expected=m)
         out.sample({"line": line[:200], "reply": m[:200]}, limit=1)
     cases = []
-    for _ in range(ctx.n(1500, 100000)):
+    for _ in range(ctx.n(1500, 80000)):
         cases.append(gen_case(rng))
     lines = [case_line(c[0], c[2], c[5]) for c in cases]
     # _bisect alone, on the real Speaker
